@@ -325,6 +325,7 @@ func runC10(r *mc.Run) {
 	c10ModuleIdentityShapes(r)
 	c10LevelComponentShapes(r)
 	c10IdentityFieldLengths(r)
+	c10TcbMemberPairs(r)
 	c10RootCrlPoints(r)
 	c10CertificateNames(r)
 
@@ -905,6 +906,47 @@ func c10LevelComponentShapes(r *mc.Run) {
 	})
 	r.SectionDone(mc.Section{Name: "level-component-shapes", Evaluations: int64(done) * 2, Exhaustive: done == len(jobs),
 		Note: fmt.Sprintf("%d x %d component list lengths x module version {0,1,3} x matching level follows {yes,no}", len(lens), len(lens))})
+}
+
+// c10TcbMemberPairs: well-formed 18-member TCB sequences in which TWO members stand under object identifiers outside
+// the profile (so both are absent as far as the decoder is concerned): every pair, through the extension decoder and
+// through verification.
+func c10TcbMemberPairs(r *mc.Run) {
+	T := world.CachedPKI("T")
+	type pr struct{ a, b int }
+	var pairs []pr
+	for a := 0; a < 18; a++ {
+		for b := a + 1; b < 18; b++ {
+			pairs = append(pairs, pr{a, b})
+		}
+	}
+	done := r.Parallel(len(pairs), func(i int) {
+		p := pairs[i]
+		id := fmt.Sprintf("tcb-member-pairs/members-%d-and-%d-under-unknown-arcs", p.a+1, p.b+1)
+		if !r.Want(id) {
+			return
+		}
+		w := world.Honest("T")
+		top, tcb := world.SGXElems(w.Plat)
+		for k, m := range []int{p.a, p.b} {
+			val := world.DERInt64(int64(7 + k))
+			if m == 17 {
+				val = world.DEROctet(w.Plat.CPUSVN[:])
+			}
+			tcb[m] = world.DERSeq(world.DEROID(world.SGXOid(2, 40+m)), val)
+		}
+		ext := world.DERSeq(top["ppid"], world.SGXTcbElem(tcb), top["pceid"], top["fmspc"], top["type"])
+		leaf := world.MakeCert(world.CertSpec{CN: world.CNLeaf, Key: T.LeafKey, SGXExt: ext}, T.Inter, T.InterKey)
+		c10Call(r, id, "pcs.PckCertificateExtensions", nil, func() error { _, e := pcs.PckCertificateExtensions(leaf); return e })
+		parts := w.Parts.Clone()
+		parts.Chain = world.PEM(leaf, T.Inter, T.Root)
+		raw, _ := parts.Bytes()
+		for _, lvl := range []int{world.L0, world.L1} {
+			o := w.Options(lvl)
+			c10Call(r, id, "verify.RawTdxQuote/"+lvlName[lvl], nil, func() error { return verify.RawTdxQuote(raw, o) })
+		}
+	})
+	r.SectionDone(mc.Section{Name: "tcb-member-pairs", Evaluations: int64(done) * 3, Exhaustive: done == len(pairs)})
 }
 
 // c10IdentityFieldLengths: correctly signed QE identities / TCB Infos whose value and mask members have every pair of
